@@ -6,6 +6,8 @@ import label as LB
 import hexr as H
 import nx as NX
 import sz as SZ
+import ms as MS
+import rw as RW
 
 CONTAINERS = "emap 0.0.13 / micromap 0.0.19 / microstack 0.0.7 as audited (DESIGN §3)"
 HAND = "hand argument DESIGN §5.0: rules ⇒ invariants I1–I3 ⇒ statement"
@@ -138,5 +140,24 @@ PROPS = {
         "explanation": "LD1 results only propagated, LD2 single Ok through success edges, SZ1/SZ2 derived readers without defaulted fields, SZ4 whole-file decode.",
         "trusted": [RUSTC, "bincode 1.3.3 slice reader", CONTAINERS],
         "assumptions": [],
+    },
+    "C07": {
+        "claim": "Decides the sodg-side clause, in the conservative direction: no user-written unsafe block/fn/impl/extern block, raw pointer or transmute anywhere in the crate (HIR + MIR); every resolved callee in emap/micromap/microstack is outside the audited deny-list (uninitialised constructor, bitwise-reading iterators, *_unchecked, any unsafe fn), so each element access goes through an entry point that asserts its bound in a debug-assertion build; Stack::from_vec only on a literal of at most 16 elements; the locked checksums of the containers equal the audited ones; the element types for which the containers' bitwise reads are sound are unchanged. It can reject code that is in fact safe; it cannot accept code that leaves the checked API. Does not decide the containers' internals, release builds, or 'calls within the limits complete' (C02's no-panic clause).",
+        "note": "Trusted: the audit of emap 0.0.13 / micromap 0.0.19 / microstack 0.0.7 by reading (DESIGN §3): bounds asserted under debug_assertions, push asserts in all builds. Claimed for debug-assertion builds only, as the property says.",
+        "technique": "HIR/MIR unsafe scan + who-may-call deny-list over resolved callees + lockfile/type facts",
+        "rules": [("MS1", MS.ms1), ("MS2", MS.ms2), ("MS3", MS.ms3), ("MS4", MS.ms4), ("MS5", MS.ms5), ("MS2x", MS.ms_cross)],
+        "explanation": "MS1 no unsafe, MS2 container deny-list over all resolved callees (floor 60 sites), MS3 from_vec literal, MS4 audited checksums, MS5 element types; thorough adds a clippy disallowed_methods cross-check.",
+        "trusted": [RUSTC, CONTAINERS],
+        "assumptions": ["debug-assertion builds"],
+    },
+    "C03": {
+        "claim": "Decides all structural clauses RW1–RW7 + GC7b + GC8: bind(v1,v2,a) performs edges(v1).insert(a,v2) unconditionally with exactly its parameters; kid(v,a) returns the target of an edge of v only under label equality with a, None only after all edges were compared; kids(v) is the unfiltered iterator of v's edge map; put stores d.clone() unconditionally; data returns a copy of the stored datum in both the Stored and the Taken arm and None exactly in the Empty arm; edges/data/read status of graph vertices are written only by bind/put/data/add and only on vertices named by an id parameter; Label's Eq/Hash/Ord are derived; a recycled id is blanked. Value equality of bytes is delegated to the derived Clone of Hex and micromap's replace-in-place insert (trusted).",
+        "note": "Trusted: rustc front end + engine; micromap::Map::insert replaces the value of an equal key in place; derived Clone of Hex copies the bytes.",
+        "technique": "MIR provenance + guard + who-may-write (frame) rules",
+        "rules": [("RW1", RW.rw1), ("RW2", RW.rw2), ("RW3", RW.rw3), ("RW4/RW5", RW.rw45), ("RW6", RW.rw6), ("RW7", LB.lb7),
+                  ("GC7b", functools.partial(G.gc7, part="b")), ("GC8", G.gc8)],
+        "explanation": "RW1 bind's insert, RW2 kid, RW3 kids, RW4 put, RW5 data's three arms, RW6 who-may-write, RW7 derived Label traits, GC7b blanking, GC8 frame.",
+        "trusted": [RUSTC, CONTAINERS],
+        "assumptions": ["capacity limits and documented preconditions"],
     },
 }
